@@ -348,6 +348,29 @@ def make(cls, par, exc, pose):
     return C(polarization=exc, **par, **kw)
 
 
+def companion_par(cls, par):
+    """another body of the same class (same vertex / face count, x-extent stretched, y/z coordinates shared) that is
+    evaluated in the SAME call: the field of a source must not depend on what else is in the batch"""
+    if cls == "Dipole":
+        return par
+    out = {}
+    for k, v in par.items():
+        if k == "faces":
+            out[k] = v
+        elif k == "vertices":
+            out[k] = (np.array(v, float) * np.array((1.3, 1.0, 1.0))).tolist()
+        elif k == "dimension" and cls == "CylinderSegment":
+            d = np.array(v, float)
+            out[k] = (d[0], d[1] * 1.3, d[2], d[3], d[4])
+        elif k == "dimension":
+            d = np.array(v, float)
+            d[0] *= 1.3
+            out[k] = tuple(d)
+        else:
+            out[k] = v * 1.3
+    return out
+
+
 def evaluate(cls, ri, local, refs, tier, ext=None):
     """library vs reference for all excitations, poses, fields at the given local observers"""
     import magpylib as magpy
@@ -400,19 +423,38 @@ def evaluate(cls, ri, local, refs, tier, ext=None):
                     continue
                 got = Rm.inv().apply(got)
                 n_eval += len(ok_idx)
-                for i in ok_idx:
-                    is_ext = ext is not None and ext[i]
-                    sc = max(np.linalg.norm(ref[i]), (1.0 if is_ext else 1e-3) * nat[i] * (mu0 if field == "B" else 1.0), 1e-300)
-                    err = np.linalg.norm(got[i] - ref[i])
-                    tol = min(1e-3, (max(TOL[cls], TOL_EXT_CLS.get(cls, TOL_EXT)) if is_ext else TOL[cls]) + FAR_GROWTH.get(cls, 0.0) * max(dist[i], 1.0) ** 3)
-                    if not np.all(np.isfinite(got[i])):
-                        out.append(("nonfinite", f"{got[i].tolist()}", i, ei, pi, field))
-                    elif eref[i] > 0.1 * tol * sc:
-                        out.append(("oracle_inconclusive", f"ref error bound {eref[i]:.3g} vs tol*scale {tol * sc:.3g}", i, ei, pi, field))
-                    elif err > tol * sc + 10 * eref[i]:
-                        out.append(("differs", f"|lib-ref|/|ref|={err / sc:.3g} tol={tol:.3g} lib={got[i].tolist()} ref={ref[i].tolist()}", i, ei, pi, field))
-                    else:
-                        out.append(("ok", (err / sc, tol), i, ei, pi, field))
+                forms = [("", got)]
+                if ei == 0 and pi <= 1:
+                    # the same source evaluated in one call together with a companion body of its class, in both orders
+                    try:
+                        comp = make(cls, companion_par(cls, par), EXC[1] if cls != "Dipole" else (0.1, 0.2, 0.3), pose)
+                        fn = getattr(magpy, "get" + field)
+                        with common.time_limit(120):
+                            g1 = np.asarray(fn([comp, src], obs)).reshape(2, -1, 3)[1]
+                            g2 = np.asarray(fn([src, comp], obs)).reshape(2, -1, 3)[0]
+                        forms += [("batched-second", Rm.inv().apply(g1)), ("batched-first", Rm.inv().apply(g2))]
+                        n_eval += 2 * len(ok_idx)
+                    except Exception as ex:
+                        out.append(("raised", f"batched get{field} raised {type(ex).__name__}: {ex}"[:160], None, ei, pi, field))
+                plain_ok = set()
+                for form, got in forms:
+                  for i in ok_idx:
+                      if form and i not in plain_ok:
+                          continue   # batched forms are judged only where the source alone is right (else: the finding above)
+                      is_ext = ext is not None and ext[i]
+                      sc = max(np.linalg.norm(ref[i]), (1.0 if is_ext else 1e-3) * nat[i] * (mu0 if field == "B" else 1.0), 1e-300)
+                      err = np.linalg.norm(got[i] - ref[i])
+                      tol = min(1e-3, (max(TOL[cls], TOL_EXT_CLS.get(cls, TOL_EXT)) if is_ext else TOL[cls]) + FAR_GROWTH.get(cls, 0.0) * max(dist[i], 1.0) ** 3)
+                      if not np.all(np.isfinite(got[i])):
+                          out.append(("nonfinite" + ("-" + form if form else ""), f"{got[i].tolist()}", i, ei, pi, field))
+                      elif eref[i] > 0.1 * tol * sc:
+                          out.append(("oracle_inconclusive", f"ref error bound {eref[i]:.3g} vs tol*scale {tol * sc:.3g}", i, ei, pi, field))
+                      elif err > tol * sc + 10 * eref[i]:
+                          out.append(("differs" + ("-" + form if form else ""), f"|lib-ref|/|ref|={err / sc:.3g} tol={tol:.3g} lib={got[i].tolist()} ref={ref[i].tolist()}", i, ei, pi, field))
+                      else:
+                          out.append(("ok", (err / sc, tol), i, ei, pi, field))
+                          if not form:
+                              plain_ok.add(i)
     return out, n_eval
 
 
@@ -554,6 +596,6 @@ def replay(case):
     outs, _ = evaluate(cls, ri, loc, refs, tier, ext)
     target = np.array(case["obs"], float)
     idx = [i for i, p in enumerate(loc) if np.array_equal(p, target)]
-    bad = [o for o in outs if o[0] in ("differs", "nonfinite", "raised") and (o[2] is None or o[2] in idx)
+    bad = [o for o in outs if o[0].split("-")[0] in ("differs", "nonfinite", "raised") and (o[2] is None or o[2] in idx)
            and o[3] == case["exc"] and o[4] == case["pose"] and o[5] == case["field"]]
     return {"violated": bool(bad), "observed": [[b[0], str(b[1])] for b in bad][:4]}
